@@ -95,7 +95,7 @@ static void origin(const Case &c) {
         if (ecb.numVerts == 3) COUNT("edge.three_points(crosses icosahedron edge)");
     }
     // originToDirectedEdges lists exactly these
-    Guarded<H3Index> oe(6, 0);
+    Guarded<H3Index> oe(6, 0x5b);  // poison, not zero: the null slot of a pentagon must be WRITTEN by the call
     CHECK(originToDirectedEdges(a, oe.p()) == E_SUCCESS && oe.intact(), "origin-edges", "originToDirectedEdges failed");
     std::set<H3Index> listed;
     int nulls = 0;
